@@ -131,8 +131,27 @@ func BuildKAC(k rm.KAC) (*keys_and_cert.KeysAndCert, bool, error) {
 	if err != nil {
 		return nil, false, nil
 	}
-	kac, err := keys_and_cert.NewKeysAndCert(kc, pk, k.Padding(), spk)
+	kac, err := keys_and_cert.NewKeysAndCert(kc, pk, PaddingArg(k), spk)
 	return kac, true, err
+}
+
+// PaddingArg is the padding a caller would hand to a constructor, in one of the forms a caller may
+// legitimately use (chosen by the block's content, so that a case replays identically): exactly
+// the bytes (nil when there are none), an empty but non-nil slice when there are none, or a slice
+// with spare capacity.
+func PaddingArg(k rm.KAC) []byte {
+	p := k.Padding()
+	switch k.Block[0] % 3 {
+	case 1:
+		if len(p) == 0 {
+			return []byte{}
+		}
+	case 2:
+		q := make([]byte, len(p), len(p)+16)
+		copy(q, p)
+		return q
+	}
+	return p
 }
 
 func BuildDestination(k rm.KAC) (*destination.Destination, bool, error) {
@@ -171,7 +190,7 @@ func BuildRouterIdentity(k rm.KAC, variant int) (*router_identity.RouterIdentity
 	if err != nil {
 		return nil, false, nil
 	}
-	ri, err := router_identity.NewRouterIdentity(pk, spk, cert, k.Padding())
+	ri, err := router_identity.NewRouterIdentity(pk, spk, cert, PaddingArg(k))
 	return ri, true, err
 }
 
